@@ -89,3 +89,7 @@ Definition add_bond_order_changes (K : keysel) (g : xits) : rcx_state := fold_le
 Definition run_steps (K : keysel) (keep : bool) (g : xits) : tok :=
   L [tstate (rc_pass1 K keep g); tstate (rc_pass2 K keep g); tstate (rc_pass3 K keep g); tstate (rc_pass4 K keep g);
      tstate (add_bond_order_changes K g)].
+
+(** ** remove_normal_edges(graph, property_key) for the remaining keys: attrs.get(key, 1) == 0 never holds for "order" (a tuple) nor
+    for a key no bond carries (default 1): the copy keeps every bond *)
+Definition run_rne (g : xits) : tok := L [txits (remove_normal_mtg g); txits g; txits g].
